@@ -1,6 +1,10 @@
 import RsslVerif.Spec.Roundtrip
 import RsslVerif.Lemmas.FmtParseTables
 import RsslVerif.Lemmas.RoundtripThm
+import RsslVerif.Lemmas.RoundtripFull7
+import RsslVerif.Lemmas.StmtRT4
+import RsslVerif.Lemmas.DefRT2
+import RsslVerif.Lemmas.LiteralText
 /-!
 # C09 — printing a syntax tree and parsing it back are inverse (expression level)
 
@@ -233,5 +237,491 @@ def ternaryMiddleAssignment : Expr :=
 example : ReadsBack ternaryMiddleAssignment [] :=
   roundtrip_expr_partial ternaryMiddleAssignment (by simp [ternaryMiddleAssignment, WF]) [] (Or.inl rfl)
 example : parseAll .Standard (toks (fmtExpr ternaryMiddleAssignment)) = some (ternaryMiddleAssignment, []) := rfl
+
+/-! # Full expression language: casts, `sizeof`, template arguments, type ids (`Model/FormatFull`, `Model/ParseFull`) -/
+section Full
+open RsslVerif.Gen.SyntaxTables RsslVerif.Model.FormatFull RsslVerif.Model.ParseFull RsslVerif.Lemmas.RoundtripFull
+
+/-- **source_fingerprints.** The formatter / parser functions whose control flow is hand-modelled for types,
+declarators, casts, `sizeof`, template arguments, statements and declarations are, byte for byte (comments and white
+space aside), the ones the model was written against.  A changed arm changes a fingerprint and breaks this obligation
+until the model has been re-read against the source. -/
+theorem source_fingerprints : fingerprints = [
+  ("formatter.rs::format_type", "d83e86900d81642d"),
+  ("formatter.rs::format_type_id", "896d1c9d5dea3027"),
+  ("formatter.rs::format_type_layout", "0191290b4d467359"),
+  ("formatter.rs::format_type_modifiers", "fb763be26ee47d64"),
+  ("formatter.rs::format_scoped_identifier", "c7e98328ef2f1ab7"),
+  ("formatter.rs::format_expression_or_type", "8e488fbb9a0ed92a"),
+  ("formatter.rs::format_template_type_args", "22882aaf047c9870"),
+  ("formatter.rs::format_declarator", "72519b3dea763ee6"),
+  ("formatter.rs::format_init_declarators", "a6aaf2ef67380f1e"),
+  ("formatter.rs::format_init_declarator", "2004455c026fd649"),
+  ("formatter.rs::format_initializer", "608341352974e4da"),
+  ("formatter.rs::format_initializer_inner", "e5d93efad5993464"),
+  ("formatter.rs::format_variable_definition", "eba838305e0123ff"),
+  ("formatter.rs::format_for_init", "77387f99a2903821"),
+  ("formatter.rs::format_statement", "851bce204a360d81"),
+  ("formatter.rs::format_attributes", "6b395693600e5105"),
+  ("formatter.rs::format_attribute", "2d8ee2901cf416bf"),
+  ("formatter.rs::format_function", "49d85d5226dd2a69"),
+  ("formatter.rs::format_function_param", "06edafe0b54eae6f"),
+  ("formatter.rs::format_struct", "874644b551ea4772"),
+  ("formatter.rs::format_global_variable", "83c45667ed45906b"),
+  ("formatter.rs::format_location_annotations", "73455d720677dbab"),
+  ("formatter.rs::format_location_annotation", "34c33f08d32d97b6"),
+  ("formatter.rs::format_semantic_annotation", "0400732ec536c60f"),
+  ("errors.rs::get_most_relevant_result", "2505c52c638c5746"),
+  ("errors.rs::get_result_significance", "e1441eecd0642dfa"),
+  ("parser.rs::parse_list_base", "0f78701638d6db4e"),
+  ("parser.rs::parse_optional", "b87cda134d4851f0"),
+  ("parser.rs::parse_arraydim", "bf8e5b16fd4abc79"),
+  ("expressions.rs::expr_leaf", "de7b23154bf0956b"),
+  ("expressions.rs::expr_in_paren", "def8686136d1bc43"),
+  ("expressions.rs::parse_expression_or_type_with_or_without_symbols", "74b162e773b9e5eb"),
+  ("expressions.rs::parse_template_args_req", "44bb80d9de927364"),
+  ("expressions.rs::parse_template_args", "1a0bf04454d4d0dc"),
+  ("expressions.rs::expr_p1::expr_p1_call", "fa6d20aff622c8c8"),
+  ("expressions.rs::expr_p1::expr_p1_member", "d94bc05f5ec4c8c3"),
+  ("expressions.rs::expr_p1::expr_p1_right", "c0452b72ee345266"),
+  ("expressions.rs::expr_p1::right_side_ops", "67ea0f8a68aeea7c"),
+  ("expressions.rs::expr_p2", "c40df69052c6a6b4"),
+  ("expressions.rs::parse_binary_operations_st", "ab202dc0478184f5"),
+  ("expressions.rs::parse_expression_resolve_symbols", "d100fa08dca97ff6"),
+  ("types.rs::parse_type_layout_internal", "b578d754752ce45d"),
+  ("types.rs::parse_type_internal", "ca0f75a7106803cc"),
+  ("types.rs::parse_type_modifiers_before", "803ee0b44f18e6bc"),
+  ("types.rs::parse_type_modifiers_after", "6fe766d05c799df8"),
+  ("types.rs::parse_type_id_internal", "2171f0334b7fe597"),
+  ("declarations.rs::parse_init_declarators", "7a5389e036f53b50"),
+  ("declarations.rs::parse_init_declarator", "e6d1a3233a196abd"),
+  ("declarations.rs::parse_declarator_internal", "8315041ced7162f7"),
+  ("declarations.rs::parse_location_annotation", "af7b00342f66cc7b"),
+  ("declarations.rs::parse_semantic", "bb4dbea2741d1f02"),
+  ("statements.rs::parse_initializer", "543427202b5482df"),
+  ("statements.rs::parse_vardef", "181bca3d57af5d04"),
+  ("statements.rs::parse_init_statement", "7f54757739ac3383"),
+  ("statements.rs::parse_attribute_base", "be7cea9025ca37bc"),
+  ("statements.rs::parse_statement", "98a553601f5e956c"),
+  ("statements.rs::parse_statement_kind", "ed144f8b976aa774"),
+  ("statements.rs::statement_block", "93f2fb5777e9a1a0"),
+  ("functions.rs::parse_function_param", "664db391b2d86622"),
+  ("functions.rs::parse_function_definition", "50a556c10f921203"),
+  ("structs.rs::parse_struct_member", "470ca87ddd983dfb"),
+  ("structs.rs::parse_struct_entry", "b768e80fbf094306"),
+  ("structs.rs::parse_struct_definition", "986a743efdefb80e")] := by decide
+
+/-- the three table checks of one modifier (see `modifier_tables_agree`) -/
+def modTableOk (m : TypeMod) : Bool :=
+  (match modBeforeStep (modTok m) with | .mod m' => m' == m | _ => false) &&
+  (match keywords.find? (fun e => e.1 == modSpell m) with
+   | some e => modTok m == .p e.2
+   | none => modTok m == .id (modSpell m)) &&
+  modAfterKw.all (fun e => e.2 != m || modTok m == .p e.1)
+
+/-- **modifier_tables_agree.** For every type modifier: `parse_type_modifiers_before` reads the token of the printed
+spelling (`Debug` of the modifier) as that modifier; the lexer's keyword table maps the spelling to that token (or the
+spelling is no keyword and the token is the identifier); `parse_type_modifiers_after` knows the modifier under the
+same token. -/
+theorem modifier_tables_agree : ∀ m : TypeMod, modTableOk m = true := by
+  intro m; cases m <;> decide
+
+/-- what may follow a complete expression (full model): nothing, or `)`, `]`, `:`, `;` -/
+def StopsX (rest : List Tok) : Prop :=
+  rest = [] ∨ ∃ t r, rest = t :: r ∧
+    (t = .p .RightParen ∨ t = .p .RightSquareBracket ∨ t = .p .Colon ∨ t = .p .Semicolon)
+
+/-- **roundtrip_xexpr_partial.** For every tree of the full expression language — the kinds of
+`roundtrip_expr_partial` plus casts `(T)e`, `sizeof(T)` / `sizeof(e)`, calls with template arguments, over type ids with
+modifiers, template arguments (nested), pointer / reference / array abstract declarators — and every set `W` of type
+names: the tokens of the printed text read back, at the top level of the parser model run with exactly the names in `W`
+accepted as types in cast / `sizeof` position, as the tree.
+
+Partial: `WF W e` is a decidable, syntactic carve-out.  It excludes, besides the literals of `LitOk`:
+* an expression argument of `sizeof` / of a template argument list with `>`, `>=`, `>>` or `,` outside parentheses
+  (`gtFree`; the real code fails there: `sizeof_shift_breaks`, `template_arg_shift_breaks`,
+  `template_arg_comma_regroups`), with a `<` operator anywhere (`template_arg_less_regroups`), or whose first token starts
+  a type (a name — in a template argument any name, in `sizeof` a name of `W` — unless it is the whole argument, which is
+  the `both` form the parser answers for a lone name);
+* a *type* in `sizeof` / template-argument position whose first token is not a keyword modifier (there the parser also
+  tries to read the text as an expression and the longer reading wins; only a lone name — `both` — and types starting
+  with a keyword modifier are proved); types in cast position are not restricted this way;
+* parenthesised binary / conditional operands whose text starts like a type (`castDeadB`: first token a name of `W`
+  followed by `<`, `*`, `&`, `[`, `const`, `volatile` or `)`, or a modifier word) — a sufficient condition for the cast
+  alternative of `expr_p2` to fail, not a necessary one;
+* declarators outside what `parse_declarator_internal` reads (`T (*)[n]`, `T*[n]`, qualifiers other than `const` /
+  `volatile` after `*`, `&&`);
+and the hypothesis `hsafe` excludes a `<` operator followed anywhere later in the stream by `>` directly before `(`
+(`less_greater_paren_regroups`: the real code reads `a < a > (…)` as a call with template arguments).
+Also not covered: `BracedInit` (no production reads it) and attributes.  The model takes the cast alternative of
+`expr_p2` whenever it succeeds (see `Model/ParseFull.lean`). -/
+theorem roundtrip_xexpr_partial (W : List String) (e : XExpr) (hwf : RsslVerif.Lemmas.RoundtripFull.WF W e) (rest : List Tok) (hrest : StopsX rest)
+    (hsafe : hasLt e = true → TmplFree (toks (fmtExprX e) ++ rest) = true) :
+    ∃ fuel, xparseLvl W fuel 15 .Standard (toks (fmtExprX e) ++ rest) = some (e, rest) := by
+  have hcl : rest = [] ∨ ∃ t r, rest = t :: r ∧ RsslVerif.Lemmas.RoundtripFull.Closes .Standard t r := by
+    rcases hrest with h | ⟨t, r, h, ht⟩
+    · exact Or.inl h
+    · refine Or.inr ⟨t, r, h, ?_⟩
+      rcases ht with h | h | h | h
+      · exact Or.inl h
+      · exact Or.inr (Or.inl h)
+      · exact Or.inr (Or.inr (Or.inl h))
+      · exact Or.inr (Or.inr (Or.inr (Or.inl h)))
+  have hno : RsslVerif.Lemmas.RoundtripFull.NoLow W 15 .Standard rest := by
+    rcases hcl with rfl | ⟨t, r, rfl, ht⟩
+    · exact RsslVerif.Lemmas.RoundtripFull.noLow_nil W _ _
+    · exact RsslVerif.Lemmas.RoundtripFull.noLow_closes W _ _ _ _ ht
+  have hin : RsslVerif.Lemmas.RoundtripFull.Inert W 15 .Standard rest := by
+    rcases hcl with rfl | ⟨t, r, rfl, ht⟩
+    · exact RsslVerif.Lemmas.RoundtripFull.inert_nil W _ _
+    · exact RsslVerif.Lemmas.RoundtripFull.inert_closes W _ _ _ _ ht
+  obtain ⟨N, h⟩ := RsslVerif.Lemmas.RoundtripFull.rt W e hwf 15 .Standard rest (e, rest) (fun h => by cases h)
+    (RsslVerif.Lemmas.RoundtripFull.lvl_le e) (Nat.le_refl _) (fun _ => rfl) hno hsafe
+    (RsslVerif.Lemmas.RoundtripFull.fin_self W e e.lvl 15 .Standard rest (RsslVerif.Lemmas.RoundtripFull.lvl_le e) (fun _ => hin))
+  exact ⟨N, h N (Nat.le_refl _)⟩
+
+/-- **roundtrip_typeid_partial.** A type id with an abstract declarator, printed by `format_type_id` in front of `)`,
+`,` or `>`, is read back by `parse_type_id` (with or without a symbol table) as the same type id: modifiers (all 27, in
+order), scoped name, template arguments, pointers with `const` / `volatile` qualifiers, references, arrays with and
+without size.  (`WFTy`: the name is not one of the identifiers `parse_type_modifiers_before` takes as modifiers; the
+template arguments satisfy `WFArg`; the declarator is one the parser has a production for.) -/
+theorem roundtrip_typeid_partial (W : List String) (mods : List TypeMod) (n : String) (targs : TArgs) (d : Decl)
+    (hwf : WFTy W (.mk mods n targs d)) (habs : d.abstr = true) (sym fol : Bool) (rest : List Tok)
+    (hsym : sym = true → W.contains n = true) (hrest : TyRest rest)
+    (hsafe : hasLtTy (.mk mods n targs d) = true → TmplFree (toks (fmtTyId (.mk mods n targs d) fol) ++ rest) = true) :
+    ∃ fuel, parseTyId W fuel sym (toks (fmtTyId (.mk mods n targs d) fol) ++ rest) = some (.mk mods n targs d, rest) := by
+  obtain ⟨N, h⟩ := rtTyp W (.mk mods n targs d) hwf habs sym fol rest hsym hrest hsafe
+  exact ⟨N, h N (Nat.le_refl _)⟩
+
+/-! ## Negation witnesses: shapes outside `WF` for which the real code does not round-trip (known findings) -/
+
+/-- `sizeof(a >> a)`: the operand is read under `Terminator::TypeList`, where `>>` is no operator — rejected -/
+theorem sizeof_shift_breaks :
+    xparseAll [] .Standard (toks (fmtExprX (.sizeof (.e (.bin .RightShift (.id "a") (.id "a")))))) = none := by decide
+
+/-- `a<a >> a>()`: the template argument is printed unparenthesised and `>>` closes the list — rejected -/
+theorem template_arg_shift_breaks :
+    (xparseAll [] .Standard (toks (fmtExprX
+      (.call (.id "a") (.cons (.e (.bin .RightShift (.id "a") (.id "a"))) .nil) .nil)))).map (·.2) ≠ some [] := by decide
+
+/-- `a<(a, a)>()` prints `a<a, a>()` and reads back with two template arguments -/
+theorem template_arg_comma_regroups :
+    xparseAll [] .Standard (toks (fmtExprX
+      (.call (.id "a") (.cons (.e (.bin .Sequence (.id "a") (.id "b"))) .nil) .nil))) =
+    some (.call (.id "a") (.cons (.both (.id "a") (.mk [] "a" .nil .empty))
+      (.cons (.both (.id "b") (.mk [] "b" .nil .empty)) .nil)) .nil, []) := by rfl
+
+/-- `a<a < b>()` reads back as `a < a<b>()` -/
+theorem template_arg_less_regroups :
+    xparseAll [] .Standard (toks (fmtExprX
+      (.call (.id "a") (.cons (.e (.bin .LessThan (.id "a") (.id "b"))) .nil) .nil))) =
+    some (.bin .LessThan (.id "a") (.call (.id "a") (.cons (.both (.id "b") (.mk [] "b" .nil .empty)) .nil) .nil), []) := by
+  rfl
+
+/-- `(a < a) > (a & a)` prints `a < a > (a & a)` and reads back as the call `a<a>(a & a)` -/
+theorem less_greater_paren_regroups :
+    xparseAll [] .Standard (toks (fmtExprX
+      (.bin .GreaterThan (.bin .LessThan (.id "a") (.id "a")) (.bin .BitwiseAnd (.id "a") (.id "a"))))) =
+    some (.call (.id "a") (.cons (.both (.id "a") (.mk [] "a" .nil .empty)) .nil)
+      (.cons (.bin .BitwiseAnd (.id "a") (.id "a")) .nil), []) := by rfl
+
+/-- non-vacuity: casts over types with modifiers, nested template arguments, pointers and arrays; `sizeof` of a type and
+of an expression; a call with template arguments; a parenthesised cast operand; all under operators of several levels -/
+def sampleX : XExpr :=
+  .bin .Assignment (.id "r")
+    (.bin .Add
+      (.cast (.mk [.Const] "vector" (.cons (.both (.id "float") (.mk [] "float" .nil .empty))
+          (.cons (.e (.lit ⟨.IntUntyped, false, 4⟩)) .nil)) (.ptr [.Const] .empty))
+        (.bin .Multiply (.id "x") (.un .Minus (.id "y"))))
+      (.bin .Multiply
+        (.sizeof (.both (.id "S") (.mk [] "S" .nil .empty)))
+        (.bin .Subtract
+          (.call (.id "f") (.cons (.t (.mk [.RowMajor] "M" .nil .empty)) (.cons (.e (.lit ⟨.IntUnsigned32, false, 2⟩)) .nil))
+            (.cons (.cast (.mk [] "S" .nil (.arr .empty (.id "n"))) (.mem (.id "p") "q")) (.cons (.id "z") .nil)))
+          (.sizeof (.e (.sub (.id "v") (.lit ⟨.IntUntyped, false, 0⟩)))))))
+
+theorem sampleX_wf : RsslVerif.Lemmas.RoundtripFull.WF ["vector", "S"] sampleX := by
+  simp [sampleX, RsslVerif.Lemmas.RoundtripFull.WF, RsslVerif.Lemmas.RoundtripFull.WFA, WFArg, WFTArgs, WFTy, WFDecl,
+    tyName, gtFree, gtFreeSub, hasLt, XExpr.lvl, kwModHead, tyMods, Decl.abstr, Decl.needsScope, Decl.startsBracket]
+  decide +kernel
+
+example : ∃ fuel, xparseLvl ["vector", "S"] fuel 15 .Standard (toks (fmtExprX sampleX) ++ []) = some (sampleX, []) :=
+  roundtrip_xexpr_partial _ sampleX sampleX_wf [] (Or.inl rfl) (fun h => by revert h; decide)
+example : xparseAll ["vector", "S"] .Standard (toks (fmtExprX sampleX)) = some (sampleX, []) := by rfl
+
+end Full
+
+/-! # Statements and local variable definitions (`Model/FormatStmt`, `Model/ParseStmt`) -/
+section Statements
+open RsslVerif.Gen.SyntaxTables RsslVerif.Model.FormatFull RsslVerif.Model.ParseFull RsslVerif.Model.FormatStmt
+open RsslVerif.Model.ParseStmt RsslVerif.Lemmas.RoundtripFull RsslVerif.Lemmas.StmtRT
+
+/-- **roundtrip_stmt_partial.** For every statement tree — empty, expression, local variable definition (shared type
+with modifiers and template arguments; several init-declarators with pointer / reference / array declarators and
+expression or (nested, possibly empty) aggregate initialisers), block, `if` / `if`-`else`, `for` with optional init
+(expression or definition), condition and increment, `while`, `do`-`while`, `switch`, `case` / `default` labels,
+`break` / `continue` / `discard` / `return` with and without value — each with attributes (`[a]`, `[[a::b(args)]]`),
+nested to any depth, and every set `W` of type names: the printed tokens followed by a non-empty `rest` are read back by
+the model of `parse_statement` as the tree (never `panic`, never `fail`), by mutual induction over statements,
+statement kinds and statement lists, on top of `roundtrip_xexpr_partial` and the declaration lemmas.
+
+Partial — `WFS` (decidable, syntactic) requires, besides `WF` of every expression:
+* **dangling else**: the true-branch of an `if`-`else` does not end in an `if` without `else` (`openIf`), and the
+  statement itself, when it ends that way, is not followed by `else` (`dangling_else_regroups`: such a tree prints
+  without braces and the `else` re-attaches; neither the parser nor the exporters build one);
+* **declaration or expression**: an expression statement (and a `for` init expression) does not read as a declaration
+  (`declDeadB`: first token no modifier; a leading name is followed by a token that starts no declarator), a definition
+  does not read as an expression statement (`varExprDeadB`: it starts with a keyword modifier or with two names in a
+  row — `T x`, not `T* x` / `T<a> x`, which the real parser answers with `AmbiguousDeclarationOrExpression` and the
+  type checker resolves; a pointer definition in `for` init reads back as an expression: `for_init_pointer_reads_as_expr`);
+* attribute arguments and initialiser expressions without a top-level comma operator (`attribute_comma_regroups`);
+* the declarators the parser has productions for (`WFDecl`), no location annotations, no `StaticSampler`.
+`hsafe` is the `<` condition of `roundtrip_xexpr_partial` for the whole remaining stream. -/
+theorem roundtrip_stmt_partial (W : List String) (s : Stmt) (hwf : WFS W s) (rest : List Tok) (hne : rest ≠ [])
+    (hopen : openIf s = true → ∀ r, rest ≠ .p .Else :: r)
+    (hsafe : hasLtS s = true → TmplFree (toks (fmtStmt s) ++ rest) = true) :
+    ∃ fuel, parseStmt W fuel (toks (fmtStmt s) ++ rest) = .ok s rest := by
+  obtain ⟨N, h⟩ := rs W s hwf rest hne hopen hsafe
+  exact ⟨N, h N (Nat.le_refl _)⟩
+
+/-- **roundtrip_block_partial.** The statements of a function body / block up to and including the closing brace. -/
+theorem roundtrip_block_partial (W : List String) (b : Stmts) (hwf : WFSs W b) (rest : List Tok)
+    (hsafe : hasLtSs b = true → TmplFree (toks (fmtStmts b) ++ .p .RightBrace :: rest) = true) :
+    ∃ fuel, parseStmts W fuel (toks (fmtStmts b) ++ .p .RightBrace :: rest) = .ok b rest := by
+  obtain ⟨N, h⟩ := rss W b hwf rest hsafe
+  exact ⟨N, h N (Nat.le_refl _)⟩
+
+/-- **roundtrip_decl_partial.** A variable definition — type (modifiers, name, template arguments) and a non-empty list
+of init-declarators (named declarators with pointers + `const`/`volatile` qualifiers, references, arrays with and
+without size; no, expression or aggregate initialiser) — printed by `format_variable_definition` in front of `;` is read
+back by `parse_vardef` as the same definition. -/
+theorem roundtrip_decl_partial (W : List String) (v : VarDef) (hwf : WFVarDef W v) (rest : List Tok)
+    (hsafe : hasLtVarDef v = true → TmplFree (toks (fmtVarDef v) ++ .p .Semicolon :: rest) = true) :
+    ∃ fuel, parseVarDef W fuel (toks (fmtVarDef v) ++ .p .Semicolon :: rest) = some (v, .p .Semicolon :: rest) := by
+  obtain ⟨N, h⟩ := varDef_reads W v hwf (.p .Semicolon :: rest) ⟨rest, rfl⟩ hsafe
+  exact ⟨N, h N (Nat.le_refl _)⟩
+
+private def sx (n : String) : Stmt := .mk [] (.expr (.id n))
+
+/-- `IfElse(c, If(d, x;), y;)` prints `if (c) if (d) x; else y;` and reads back as `If(c, IfElse(d, x;, y;))` -/
+theorem dangling_else_regroups :
+    parseStmtAll [] (toks (fmtStmt (.mk [] (.ifElse (.id "c") (.mk [] (.ifS (.id "d") (sx "x"))) (sx "y")))) ++ [.p .RightBrace]) =
+    .ok (.mk [] (.ifS (.id "c") (.mk [] (.ifElse (.id "d") (sx "x") (sx "y"))))) [.p .RightBrace] := by rfl
+
+/-- `[unroll((a, b))] ;` prints `[unroll(a, b)] ;` and reads back with two arguments (real code: known finding) -/
+theorem attribute_comma_regroups :
+    parseStmtAll [] (toks (fmtStmt (.mk [⟨"unroll", .cons (.bin .Sequence (.id "a") (.id "b")) .nil, false⟩] .empty)) ++ [.p .RightBrace]) =
+    .ok (.mk [⟨"unroll", .cons (.id "a") (.cons (.id "b") .nil), false⟩] .empty) [.p .RightBrace] := by rfl
+
+/-- `for (T* p;;) ;` reads back with the init as the expression `T * p` (the expression wins a tie in
+`parse_init_statement`) -/
+theorem for_init_pointer_reads_as_expr :
+    parseStmtAll ["T"] (toks (fmtStmt (.mk [] (.forS (.decl ⟨[], "T", .nil, [⟨.ptr [] (.name "p"), none⟩]⟩) none none (.mk [] .empty)))) ++ [.p .RightBrace]) =
+    .ok (.mk [] (.forS (.expr (.bin .Multiply (.id "T") (.id "p"))) none none (.mk [] .empty))) [.p .RightBrace] := by rfl
+
+/-- non-vacuity: attributes, a definition with three declarators and nested aggregate initialiser, `for` with a
+definition, `if`-`else` chains, `switch` with labels, `do`-`while`, `return` -/
+def sampleStmt : Stmt :=
+  .mk [⟨"loop", .nil, false⟩] (.forS
+    (.decl ⟨[], "int", .nil, [⟨.name "i", some (.expr (.lit ⟨.IntUntyped, false, 0⟩))⟩, ⟨.name "j", none⟩]⟩)
+    (some (.bin .LessThan (.id "i") (.id "n")))
+    (some (.bin .Sequence (.un .PrefixIncrement (.id "i")) (.un .PostfixDecrement (.id "j"))))
+    (.mk [] (.block (.cons
+      (.mk [] (.var ⟨[.Const], "vector", .cons (.both (.id "float") (.mk [] "float" .nil .empty))
+          (.cons (.e (.lit ⟨.IntUntyped, false, 4⟩)) .nil),
+        [⟨.ptr [.Const] (.name "p"), some (.expr (.cast (.mk [] "S" .nil (.ptr [] .empty)) (.id "q")))⟩,
+         ⟨.arr (.name "a") (.bin .Add (.id "n") (.lit ⟨.IntUntyped, false, 1⟩)),
+           some (.agg (.cons (.expr (.lit ⟨.IntUntyped, false, 1⟩)) (.cons (.agg (.cons (.expr (.id "x")) .nil)) (.cons (.agg .nil) .nil))))⟩]⟩))
+      (.cons (.mk [⟨"vk::x", .cons (.lit ⟨.IntUntyped, false, 3⟩) .nil, true⟩]
+        (.ifElse (.id "c")
+          (.mk [] (.block (.cons (.mk [] (.ifS (.id "d") (.mk [] (.expr (.bin .Assignment (.id "x") (.id "y")))))) .nil)))
+          (.mk [] (.ifS (.id "e") (.mk [] .breakS)))))
+      (.cons (.mk [] (.switchS (.id "k") (.mk [] (.block
+        (.cons (.mk [] (.caseS (.lit ⟨.IntUntyped, false, 0⟩) (.mk [] (.caseS (.lit ⟨.IntUntyped, false, 1⟩) (.mk [] (.ret none))))))
+        (.cons (.mk [] (.defaultS (.mk [] (.doWhile (.mk [] .continueS) (.id "w"))))) .nil))))))
+      (.cons (.mk [] (.ret (some (.call (.id "f") .nil (.cons (.id "i") .nil))))) .nil)))))))
+
+theorem sampleStmt_wf : WFS ["int", "vector", "S"] sampleStmt := by
+  simp [sampleStmt, WFS, WFK, WFSs, WFAttrs, WFAttr, WFForInit, WFVarDef, WFInitDecl, WFInit, WFInits, WFOpt, WFDecl, argsLvl,
+    RsslVerif.Lemmas.RoundtripFull.WF, RsslVerif.Lemmas.RoundtripFull.WFA, WFArg, WFTArgs, WFTy, tyName,
+    gtFree, hasLt, XExpr.lvl, Decl.abstr, Decl.needsScope, Decl.startsBracket, openIf, openIfK]
+  decide +kernel
+
+example : ∃ fuel, parseStmt ["int", "vector", "S"] fuel (toks (fmtStmt sampleStmt) ++ [.p .RightBrace]) =
+    .ok sampleStmt [.p .RightBrace] :=
+  roundtrip_stmt_partial _ sampleStmt sampleStmt_wf _ (by simp) (fun _ r h => by cases h) (fun _ => by decide +kernel)
+end Statements
+
+/-! # Function and struct definitions (`Model/FormatDef`, `Model/ParseDef`) -/
+section Definitions
+open RsslVerif.Gen.SyntaxTables RsslVerif.Model.FormatFull RsslVerif.Model.ParseFull RsslVerif.Model.FormatStmt
+open RsslVerif.Model.ParseStmt RsslVerif.Model.FormatDef RsslVerif.Model.ParseDef
+open RsslVerif.Lemmas.RoundtripFull RsslVerif.Lemmas.StmtRT RsslVerif.Lemmas.DefRT
+
+/-- **roundtrip_param_partial.** A function parameter — type with modifiers (`in` / `out` / `inout`, `const`, …) and
+template arguments, named declarator (pointer, reference, array dimensions), optional semantic, optional default value —
+printed by `format_function_param` in front of `,` or `)` is read back by the model of `parse_function_param` as the same
+parameter.  Partial — `WFParam`: the declarator is named and one the parser has productions for, the default value has
+no top-level comma operator (`default_arg_comma_rejected`: the formatter prints it bare and the text is rejected; known
+finding), expressions are `WF`. -/
+theorem roundtrip_param_partial (W : List String) (p : Param) (hwf : WFParam W p) (c : Tok)
+    (hc : c = .p .Comma ∨ c = .p .RightParen) (rest : List Tok)
+    (hsafe : hasLtParam p = true → TmplFree (toks (fmtParam p) ++ c :: rest) = true) :
+    ∃ fuel, parseParam W fuel (toks (fmtParam p) ++ c :: rest) = some (p, c :: rest) := by
+  rw [toks_fmtParam] at hsafe ⊢
+  obtain ⟨N, h⟩ := param_reads W p hwf c hc rest hsafe
+  exact ⟨N, h N (Nat.le_refl _)⟩
+
+/-- **roundtrip_function_partial.** For every function definition tree — attributes, return type (modifiers, name,
+template arguments), name, any number of parameters (`roundtrip_param_partial`), optional semantic on the return value,
+and either no body (`;`) or a body of any statements (`roundtrip_block_partial`) — and every `rest`: the printed tokens
+followed by `rest` are read back by the model of `parse_function_definition` as the same tree (`ok`, never `panic`).
+Partial — `WFFn`: `WFAttrs`, `WFParam` of every parameter, `WFSs` of the body; not in the tree type: template parameter
+lists, `const` / `volatile` methods, register / packoffset annotations, more than one annotation per position (driver:
+`unsupported`).  `hsafe` is the `<` condition of `roundtrip_xexpr_partial` for the whole remaining stream. -/
+theorem roundtrip_function_partial (W : List String) (fn : FnDef) (hwf : WFFn W fn) (rest : List Tok)
+    (hsafe : hasLtFn fn = true → TmplFree (toks (fmtFn fn) ++ rest) = true) :
+    ∃ fuel, parseFn W fuel (toks (fmtFn fn) ++ rest) = .ok fn rest := by
+  rw [toks_fmtFn] at hsafe ⊢
+  obtain ⟨N, h⟩ := fn_reads W fn hwf rest hsafe
+  exact ⟨N, h N (Nat.le_refl _)⟩
+
+/-- **roundtrip_struct_partial.** For every struct definition tree — name and any number of entries, each a member
+variable definition with attributes (`roundtrip_decl_partial`) or a method (`roundtrip_function_partial`; the model of
+`parse_struct_entry` tries the member reading first, which is shown to fail on a method: after the name comes `(`) — the
+printed tokens followed by `rest` are read back by the model of `parse_struct_definition` as the same tree.
+Partial — `WFStruct`: `WFVarDef` / `WFFn` of the entries; not in the tree type: template parameters, base types (which the
+formatter does not print: known finding), member semantics / packoffsets. -/
+theorem roundtrip_struct_partial (W : List String) (s : StructDef) (hwf : WFStruct W s) (rest : List Tok)
+    (hsafe : hasLtMembers s.members = true → TmplFree (toks (fmtStruct s) ++ rest) = true) :
+    ∃ fuel, parseStruct W fuel (toks (fmtStruct s) ++ rest) = .ok s rest := by
+  rw [toks_fmtStruct] at hsafe ⊢
+  obtain ⟨N, h⟩ := struct_reads W s hwf rest hsafe
+  exact ⟨N, h N (Nat.le_refl _)⟩
+
+/-- `void f(int a = (x, y));` prints `void f(int a = x, y);`: the default value is printed with `format_expression` and
+read with `parse_expression_no_seq`; `y` is then read as the type of a second parameter without name: rejected (real
+code: known finding) -/
+theorem default_arg_comma_rejected :
+    parseFn [] 40 (toks (fmtFn ⟨[], [], "void", .nil, "f",
+      [⟨[], "int", .nil, .name "a", none, some (.bin .Sequence (.id "x") (.id "y"))⟩], none, none⟩) ++ [.p .Eof]) = .fail := by rfl
+
+/-- non-vacuity: attribute, template return type, `in`/`out`/`inout` parameters with array declarator, semantics and a
+default value, a body with a definition and a `return` -/
+def sampleFn : FnDef :=
+  ⟨[⟨"numthreads", .cons (.lit ⟨.IntUntyped, false, 8⟩) (.cons (.lit ⟨.IntUntyped, false, 8⟩) (.cons (.lit ⟨.IntUntyped, false, 1⟩) .nil)), false⟩],
+   [.Static], "vector", .cons (.both (.id "float") (.mk [] "float" .nil .empty)) (.cons (.e (.lit ⟨.IntUntyped, false, 4⟩)) .nil), "f",
+   [⟨[.In], "float4", .nil, .name "a", some "COLOR", none⟩,
+    ⟨[.Out], "S", .nil, .arr (.name "b") (.lit ⟨.IntUntyped, false, 3⟩), none, none⟩,
+    ⟨[.InOut, .Const], "uint", .nil, .name "c", some "SV_VertexID", some (.bin .Add (.id "n") (.lit ⟨.IntUntyped, false, 1⟩))⟩],
+   some "SV_Target",
+   some (.cons (.mk [] (.var ⟨[], "float", .nil, [⟨.name "t", some (.expr (.id "a"))⟩]⟩))
+     (.cons (.mk [] (.ret (some (.id "t")))) .nil))⟩
+
+theorem sampleFn_wf : WFFn ["vector", "float4", "S", "uint", "float", "float4x4"] sampleFn := by
+  simp [sampleFn, WFFn, WFParam, WFBody, WFS, WFK, WFSs, WFAttrs, WFAttr, WFVarDef, WFInitDecl, WFInit, WFOpt, WFDecl, argsLvl,
+    RsslVerif.Lemmas.RoundtripFull.WF, RsslVerif.Lemmas.RoundtripFull.WFA, WFArg, WFTArgs, WFTy, tyName,
+    gtFree, hasLt, XExpr.lvl, Decl.abstr, Decl.needsScope, Decl.startsBracket, openIf, openIfK]
+  decide +kernel
+
+example : ∃ fuel, parseFn ["vector", "float4", "S", "uint", "float", "float4x4"] fuel (toks (fmtFn sampleFn) ++ [.p .Eof]) = .ok sampleFn [.p .Eof] :=
+  roundtrip_function_partial _ sampleFn sampleFn_wf _ (fun _ => by decide +kernel)
+
+/-- non-vacuity: a struct with two member definitions (one with attribute and two declarators) and a method -/
+def sampleStruct : StructDef :=
+  ⟨"P", [.var [] ⟨[], "float4", .nil, [⟨.name "pos", none⟩]⟩,
+         .var [⟨"a", .nil, true⟩] ⟨[.RowMajor], "float4x4", .nil, [⟨.name "m", none⟩, ⟨.arr (.name "k") (.lit ⟨.IntUntyped, false, 2⟩), none⟩]⟩,
+         .method sampleFn]⟩
+
+theorem sampleStruct_wf : WFStruct ["vector", "float4", "S", "uint", "float", "float4x4"] sampleStruct := by
+  intro m hm
+  simp only [sampleStruct, List.mem_cons, List.not_mem_nil, or_false] at hm
+  rcases hm with rfl | rfl | rfl
+  · simp [WFMember, WFAttrs, WFVarDef, WFInitDecl, WFDecl, WFTArgs, Decl.abstr]; decide +kernel
+  · simp [WFMember, WFAttrs, WFAttr, argsLvl, RsslVerif.Lemmas.RoundtripFull.WFA, WFVarDef, WFInitDecl, WFDecl, WFTArgs,
+      Decl.abstr, Decl.needsScope, RsslVerif.Lemmas.RoundtripFull.WF]
+    decide +kernel
+  · exact sampleFn_wf
+
+example : ∃ fuel, parseStruct ["vector", "float4", "S", "uint", "float", "float4x4"] fuel (toks (fmtStruct sampleStruct) ++ [.p .Eof]) =
+    .ok sampleStruct [.p .Eof] :=
+  roundtrip_struct_partial _ sampleStruct sampleStruct_wf _ (fun _ => by decide +kernel)
+
+end Definitions
+
+/-! # The text of integer literals -/
+section LiteralText
+open RsslVerif.Lemmas.LiteralText RsslVerif.Model.Lexer RsslVerif.Gen.LexTables
+
+/-- the lexer's integer type of a literal kind of the syntax tree -/
+def intTypeOfKind : LitKind → Option (Option IntType)
+  | .IntUntyped => some none
+  | .IntUnsigned32 => some (some .Unsigned32)
+  | .IntUnsigned64 => some (some .Unsigned64)
+  | .IntSigned64 => some (some .Signed64)
+  | _ => none
+
+/-- the suffix characters `format_literal` appends -/
+def sfxChars : Option IntType → List Char
+  | none => []
+  | some .Unsigned32 => ['u']
+  | some .Unsigned64 => ['u', 'l']
+  | some .Signed64 => ['l']
+
+/-- **literal_roundtrip_int** (beyond `_partial`, for integer literals of every type suffix).  For every non-negative
+integer literal of the four integer kinds whose value fits the kind (`mkIntToken?` = the lexer's range check: `< 2^32`
+for `u`, `< 2^63` for `l`, `< 2^64` otherwise):
+1. the piece the formatter model prints carries the text `digits ++ suffix`, where `digits` are the decimal digits of
+   the value, most significant first without leading zeros (`decMS`; `repr_decMS`: this is what `toString` — standing
+   for Rust's `Display`, which is trusted — produces), and
+2. that text, as bytes, followed by anything that does not continue the literal (`IntFollow`), is accepted by
+   `literal_int` — property C10's model of `preprocess/src/lexer.rs` — and yields exactly the literal token of the same
+   kind and value (`ofDigits_decMS`: the digits denote the value; `int_value_exact` is the converse direction).
+`token_numeric_dispatch` (C10, cited) says `literal_int` is what `token_intermediate` runs when `literal_float` declines. -/
+theorem literal_roundtrip_int (kind : LitKind) (k : Option IntType) (hk : intTypeOfKind kind = some k)
+    (v : Nat) (hv : v < 2 ^ 64) (tok : Token) (hfit : mkIntToken? v k = some tok) :
+    litPieces ⟨kind, false, v⟩ =
+      some [.t (.lit ⟨kind, false, v⟩) (String.ofList ((decMS v).map Nat.digitChar ++ sfxChars k))] ∧
+    (∀ tail, IntFollow tail →
+      literalInt ((((decMS v).map Nat.digitChar ++ sfxChars k).map fun c => UInt8.ofNat c.toNat) ++ tail) = .ok (tail, tok)) ∧
+    (tok = match k with
+      | none => .litInt v
+      | some .Unsigned32 => .litIntU32 v
+      | some .Unsigned64 => .litIntU64 v
+      | some .Signed64 => .litIntS64 (v : Int)) := by
+  have hbytes : ∀ tail, (((decMS v).map Nat.digitChar ++ sfxChars k).map fun c => UInt8.ofNat c.toNat) ++ tail =
+      (decMS v).map digitByte ++ (sfxBytes k ++ tail) := by
+    intro tail
+    rw [List.map_append, digitChars_bytes, List.append_assoc]
+    congr 1
+    cases k with
+    | none => rfl
+    | some k => cases k <;> rfl
+  refine ⟨?_, fun tail hf => ?_, ?_⟩
+  · cases kind <;> simp [intTypeOfKind] at hk <;> subst hk <;>
+      (simp [litPieces, sfxChars, String.ofList_append]; exact repr_decMS v)
+  · rw [hbytes]
+    exact int_text_reads v k tok hv hfit tail hf
+  · cases k with
+    | none => simpa [mkIntToken?] using hfit.symm
+    | some k =>
+      cases k <;> simp only [mkIntToken?] at hfit
+      · split at hfit
+        · simpa using hfit.symm
+        · cases hfit
+      · simpa using hfit.symm
+      · split at hfit
+        · simpa using hfit.symm
+        · cases hfit
+
+/-- non-vacuity: `4294967295u`, `18446744073709551615ul`, `9223372036854775807l`, `0` -/
+example : ∃ tok, mkIntToken? 4294967295 (some .Unsigned32) = some tok ∧
+    literalInt ((((decMS 4294967295).map Nat.digitChar ++ sfxChars (some .Unsigned32)).map fun c => UInt8.ofNat c.toNat) ++ [59]) =
+      .ok ([59], tok) :=
+  ⟨_, rfl, (literal_roundtrip_int .IntUnsigned32 _ rfl 4294967295 (by decide) _ rfl).2.1 [59] ⟨by decide, by decide, by decide, by decide, by decide, by decide⟩⟩
+example : mkIntToken? 18446744073709551615 (some .Unsigned64) = some (.litIntU64 18446744073709551615) := rfl
+example : mkIntToken? (2 ^ 63) (some .Signed64) = none := by decide
+
+end LiteralText
 
 end RsslVerif.Thm.C09
